@@ -15,7 +15,7 @@ func init() {
 		Diff:        []string{"D_C19_1"},
 		ExtraNative: map[string]string{"c19replay": "ZZReplayC19()"},
 		Functions:   []string{"generator.(*asyncPostProcess).OnFinished", "generator.(*asyncPostProcess).OnFinished$1 (worker)", "generator.(*asyncPostProcess).OnFinished$1$1 (deferred wg.Done / release)", "generator.(*asyncPostProcess).Add"},
-		Bounds:      "J jobs (quick 0..3 with K<=2 for J=3, thorough 0..4 with K<=2 for J=4) x post-processor present/absent x concurrency K as returned by GOMAXPROCS in {-1,0,1,2,3} (thorough also 4); every interleaving of the dispatching loop with the workers at the granularity of visible operations (channel send/receive, select, go, WaitGroup Add/Done/Wait, start and end of the post-process and write callbacks), every select choice and every subset of failing post-process / write steps are solver variables; unrolling depth T = sum of the longest thread programs, discharged by an unwinding assertion",
+		Bounds:      "J jobs (quick 0..3 with K<=2 for J=3, thorough 0..4 with K<=2 for J=4 and K<=1 for J=4 with a post-processor) x post-processor present/absent x concurrency K as returned by GOMAXPROCS in {-1,0,1,2,3} (thorough also 4); every interleaving of the dispatching loop with the workers at the granularity of visible operations (channel send/receive, select, go, WaitGroup Add/Done/Wait, start and end of the post-process and write callbacks), every select choice and every subset of failing post-process / write steps are solver variables; unrolling depth T = sum of the longest thread programs, discharged by an unwinding assertion",
 		Assumptions: []string{"thread programs are extracted thread-modularly from the SSA of the current tree by gosym (goroutine bodies run inline, channel/WaitGroup operations recorded with forked outcomes): sound when threads communicate only through the channels, the WaitGroup and read-only data, which holds for OnFinished (workers receive path/content by value)",
 			"invisible instructions between two visible operations are executed atomically", "the write callback and the post-processor are environment stubs that succeed or return an error (panics inside them are outside)",
 			"file system effects of the real write callback and path resolution in Persist are outside this check"},
@@ -50,8 +50,8 @@ func runC19(r *runner, ev *evidence, pool *gosym.Pool) int {
 				if r.tier != "thorough" && J == 3 && K > 2 {
 					continue // measured: J=3,K=3 needs >10 min of solver time; thorough only
 				}
-				if J >= 4 && K > 2 {
-					continue // measured: the unwinding query of J=4,K=3 times out (z3 5.1, 10 min); outside the registered bound
+				if J >= 4 && (K > 2 || (K == 2 && withPP == 1)) {
+					continue // measured: the unwinding queries of J=4,K=3 and of J=4,K=2 with a post-processor time out (z3 5.1, 10-15 min); outside the registered bound
 				}
 				if K > J && K > 1 && J > 0 && K != ks[len(ks)-1] {
 					// capacities above the number of jobs behave alike; keep the largest only
